@@ -1,4 +1,4 @@
-(* Props/C02w5c.v — property C02, wave 5: ttensor.reconstruct with index-list samples AS CALLED (row selection included), and the
+(* Props/C02w5c.v — property C02, wave 5 / 6: ttensor.reconstruct with index-list samples AS CALLED (request test and row selection included), and the
    data-dependent container switch of sptensor.ttv / sptensor.contract ("sparse result kept sparse vs. densified at 50% fill") as a function of
    the denoted array alone.  Only statements, `exact`, Print Assumptions (and closed Examples).
    Proofs: Proofs/C02ReconstructProofs.v, Proofs/C02SwitchProofs.v. *)
@@ -13,17 +13,35 @@ Variables (v0 v1 : V) (vadd vmul vsub : V -> V -> V) (vopp : V -> V).
 Hypothesis Vring : ring_theory v0 v1 vadd vmul vsub vopp (@eq V).
 Variable isz : V -> bool.
 
-(* ttensor.reconstruct(samples, modes), index-list samples: full_samples filled pair by pair (a mode named twice keeps the LATER sample, an
-   empty sample keeps the whole factor), rows of the factors selected (any order, repetitions allowed), ttensor(core, new_u).full():
-   entry i of the result is the entry of the denoted array at the subscript whose k-th component is sample_k[i_k] *)
-Theorem C02_reconstruct_tucker : forall (T : ttensor V) (modes : list nat) (samples : list (list nat)),
+(* ttensor.reconstruct(samples, modes), index-list samples, AS CALLED (request test of 9d2314a included: Model/C02Reconstruct.v impl_reconstruct_req).
+   An answered request pairs samples and modes one to one, with DISTINCT modes of [0, ndims); then full_samples is the table mode_j -> sample_j (empty
+   at every mode not named; an empty sample keeps the whole factor), rows of the factors are selected (any order, repetitions allowed) and
+   ttensor(core, new_u).full() is returned: entry i of the result is the entry of the denoted array at the subscript whose k-th component is
+   sample_k[i_k]. *)
+Theorem C02_reconstruct_tucker : forall (T : ttensor V) (modes : list Z) (samples : list (list nat)) (Y : dense V),
   wf_dense (tcore T) -> length (dshape (tcore T)) = length (tfactors T) ->
-  let fs := full_samples (length (tfactors T)) modes samples in
+  impl_reconstruct_req v0 vadd vmul T modes samples = Some Y ->
+  let N := length (tfactors T) in
+  let fs := full_samples N (map Z.to_nat modes) samples in
   rows_ok (tfactors T) fs ->
-  let Y := impl_reconstruct v0 vadd vmul T modes samples in
+  (length samples = length modes /\ NoDup modes /\ forall m, In m modes -> (0 <= m < Z.of_nat N)%Z) /\
+  (forall j, j < length modes -> nth (Z.to_nat (nth j modes 0%Z)) fs [] = nth j samples []) /\
+  (forall k, ~ In (Z.of_nat k) modes -> nth k fs [] = []) /\
   dshape Y = map (@nrows V) (new_factors (tfactors T) fs) /\ wf_dense Y /\
   forall i, inb (dshape Y) i = true -> den_dense v0 Y i = den_t v0 v1 vadd vmul T (sample_idx fs i).
-Proof. exact (impl_reconstruct_correct V v0 v1 vadd vmul vsub vopp Vring). Qed.
+Proof. exact (impl_reconstruct_req_correct V v0 v1 vadd vmul vsub vopp Vring). Qed.
+
+(* every request inside the domain is answered ... *)
+Theorem C02_reconstruct_accepts : forall (T : ttensor V) (modes : list Z) (samples : list (list nat)),
+  length samples = length modes -> NoDup modes -> (forall m, In m modes -> (0 <= m < Z.of_nat (length (tfactors T)))%Z) ->
+  impl_reconstruct_req v0 vadd vmul T modes samples = Some (impl_reconstruct v0 vadd vmul T (map Z.to_nat modes) samples).
+Proof. exact (impl_reconstruct_req_accepts V v0 vadd vmul). Qed.
+
+(* ... and a negative, an out-of-range or a REPEATED mode (or unequally long lists) is rejected: no "later sample wins", no wrap-around *)
+Theorem C02_reconstruct_rejects : forall (T : ttensor V) (modes : list Z) (samples : list (list nat)),
+  (length samples <> length modes \/ ~ NoDup modes \/ exists m, In m modes /\ ~ (0 <= m < Z.of_nat (length (tfactors T)))%Z) ->
+  impl_reconstruct_req v0 vadd vmul T modes samples = None.
+Proof. exact (impl_reconstruct_req_rejects V v0 vadd vmul). Qed.
 
 (* the 50% switch: sptensor.ttv / sptensor.contract return a dense tensor exactly when more than half of the entries of the DEFINING SUM are
    nonzero — a function of the array the operand denotes, not of its stored order or stored count *)
@@ -47,17 +65,23 @@ Theorem C02_switch_repr_indep : forall (S S' : sparse V) dims vs, wf_sp isz S ->
 Proof. exact (switch_repr_indep V v0 v1 vadd vmul vsub vopp Vring isz). Qed.
 End C02w5c.
 Print Assumptions C02_reconstruct_tucker.
+Print Assumptions C02_reconstruct_accepts.
+Print Assumptions C02_reconstruct_rejects.
 Print Assumptions C02_switch_ttv_sparse.
 Print Assumptions C02_switch_contract_sparse.
 Print Assumptions C02_switch_repr_indep.
 
 Local Open Scope Z_scope.
 (* core [[2 -1]] (1 x 2), factors [[1]; [2]] (2 x 1), [[1 0]; [0 1]; [1 1]] (3 x 2): full = [[2 -1 1]; [4 -2 2]].
-   modes [1; 0; 1], samples [[0]; []; [2; 2; 1]]: mode 1 keeps the LATER sample [2; 2; 1], mode 0 (empty sample) is kept whole: [[1 1 -1]; [2 2 -2]] *)
+   modes [1; 0], samples [[2; 2; 1]; []]: rows 2, 2, 1 of mode 1, mode 0 (empty sample) kept whole: [[1 1 -1]; [2 2 -2]];
+   modes [1; 0; 1] (mode 1 named twice), [-1] (negative), [2] (out of range): rejected *)
 Example C02_ex_reconstruct :
-  impl_reconstruct 0 Z.add Z.mul (mkT (mkDense [1; 2]%nat [2; -1]) [[[1]; [2]]; [[1; 0]; [0; 1]; [1; 1]]]) [1; 0; 1]%nat [[0]; []; [2; 2; 1]]%nat
-    = mkDense [2; 3]%nat [1; 2; 1; 2; -1; -2].
-Proof. reflexivity. Qed.
+  let T := mkT (mkDense [1; 2]%nat [2; -1]) [[[1]; [2]]; [[1; 0]; [0; 1]; [1; 1]]] in
+  impl_reconstruct_req 0 Z.add Z.mul T [1; 0] [[2; 2; 1]; []]%nat = Some (mkDense [2; 3]%nat [1; 2; 1; 2; -1; -2]) /\
+  impl_reconstruct_req 0 Z.add Z.mul T [1; 0; 1] [[0]; []; [2; 2; 1]]%nat = None /\
+  impl_reconstruct_req 0 Z.add Z.mul T [-1] [[0]]%nat = None /\
+  impl_reconstruct_req 0 Z.add Z.mul T [2] [[0]]%nat = None.
+Proof. cbv zeta. repeat split; reflexivity. Qed.
 (* S (2 x 3 x 2) stores (1,2,1) -> 5, (0,1,0) -> 7, (1,0,0) -> 2; ttv in mode 0 with [1; 1] leaves 3 nonzeros of 6 entries: kept sparse;
    ttv in modes 0, 2 with [1; 1], [1; 1] leaves [2; 7; 5]: 3 of 3 nonzero: densified *)
 Example C02_ex_switch :
